@@ -27,7 +27,7 @@ package main
 // libFailed, libCalls, declared in /repo/verif_contracts.go); the wrappers are verified to hand the library the
 // process's own stdout (not a buffer whose flush could fail unseen) and to return the library's verdict.
 //@ func main.output
-//@   modifies libWriter, libFailed, libCalls, libReader, lastCtxLive, lastConfig, lastForest, lnNodes, Node.children, Node.parent, Node.brnch.value, Node.brnch.path, list.List.view, list.Element.backOf, counter.n, bufio.Scanner.pos, bufio.Scanner.failed, markdown.Parser.isSharpRoot, markdown.Parser.spaces, markdown.Parser.sep, out, wfail, defaultSpreaderSimple.w, encTrace, encoders, rsRoots, rsFailed, rsStopped, rsErr, gsRoots, gsFailed, gsStopped, gsErr, spRoots, spText, dryRoots, esFailed, errSent, stageSpread, stageWriter, ctxCancelled, splSent, lnRootCount, lnRejected, splSharp, splCutOK, ctxDoneSeen, gcRecv, rcRecv, rcSentOK, lnConsumed, gcSent, errRecv
+//@   modifies libWriter, libFailed, libCalls, libReader, lastCtxLive, lastConfig, lastForest, lnNodes, Node.children, Node.parent, Node.brnch.value, Node.brnch.path, list.List.view, list.Element.backOf, counter.n, bufio.Scanner.pos, bufio.Scanner.failed, markdown.Parser.isSharpRoot, markdown.Parser.spaces, markdown.Parser.sep, out, wfail, defaultSpreaderSimple.w, encTrace, encoders, rsRoots, rsFailed, rsStopped, rsErr, gsRoots, gsFailed, gsStopped, gsErr, spRoots, spText, dryRoots, esFailed, errSent, stageSpread, stageWriter, ctxCancelled, splSent, lnRootCount, lnRejected, splSharp, splCutOK, ctxDoneSeen, gcRecv, rcRecv, rcSentOK, lnConsumed, gcSent, errRecv, counter.mu.wheld, counter.mu.rheld, markdown.Parser.mu.wheld, gtree.defaultSpreaderPipeline.Mutex.held
 //@   ensures direct [C16]: libWriter == os.Stdout
 //@   ensures pub [C16]: libCalls == old(libCalls) + 1 && libFailed == (old(libFailed) || result != nil)
 //@   ensures reader [C16]: libReader == in
@@ -35,20 +35,20 @@ package main
 //@   ensures live [C16]: lastCtxLive == old(!gtree.specHasOpt(options, gtree.optKMassive, len(options)) || gtree.specLastCtx(options, len(options)) == gtree.specBg() || !ctxCancelled[gtree.specLastCtx(options, len(options))])
 //@ func main.outputWithValidation
 //@   use lemma gtree.lemmaHasOptPrefix, gtree.lemmaLastOptStrPrefix, gtree.lemmaLastOptStrsPrefix, gtree.lemmaLastEncodePrefix, gtree.lemmaLastCtxPrefix
-//@   modifies libWriter, libFailed, libCalls, libReader, lastCtxLive, lastConfig, lastForest, lnNodes, Node.children, Node.parent, Node.brnch.value, Node.brnch.path, list.List.view, list.Element.backOf, counter.n, bufio.Scanner.pos, bufio.Scanner.failed, markdown.Parser.isSharpRoot, markdown.Parser.spaces, markdown.Parser.sep, out, wfail, defaultSpreaderSimple.w, encTrace, encoders, rsRoots, rsFailed, rsStopped, rsErr, gsRoots, gsFailed, gsStopped, gsErr, spRoots, spText, dryRoots, esFailed, errSent, stageSpread, stageWriter, ctxCancelled, splSent, lnRootCount, lnRejected, splSharp, splCutOK, ctxDoneSeen, gcRecv, rcRecv, rcSentOK, lnConsumed, gcSent, errRecv
+//@   modifies libWriter, libFailed, libCalls, libReader, lastCtxLive, lastConfig, lastForest, lnNodes, Node.children, Node.parent, Node.brnch.value, Node.brnch.path, list.List.view, list.Element.backOf, counter.n, bufio.Scanner.pos, bufio.Scanner.failed, markdown.Parser.isSharpRoot, markdown.Parser.spaces, markdown.Parser.sep, out, wfail, defaultSpreaderSimple.w, encTrace, encoders, rsRoots, rsFailed, rsStopped, rsErr, gsRoots, gsFailed, gsStopped, gsErr, spRoots, spText, dryRoots, esFailed, errSent, stageSpread, stageWriter, ctxCancelled, splSent, lnRootCount, lnRejected, splSharp, splCutOK, ctxDoneSeen, gcRecv, rcRecv, rcSentOK, lnConsumed, gcSent, errRecv, counter.mu.wheld, counter.mu.rheld, markdown.Parser.mu.wheld, gtree.defaultSpreaderPipeline.Mutex.held
 //@   ensures direct [C16]: libWriter == color.Output
 //@   ensures pub [C16]: libCalls == old(libCalls) + 1 && libFailed == (old(libFailed) || result != nil)
 //@   ensures reader [C16]: libReader == in
 //@   ensures wired [C16]: lastConfig.strictVerify == gtree.specHasOpt(options, gtree.optKStrict, len(options)) && lastConfig.massive == gtree.specHasOpt(options, gtree.optKMassive, len(options)) && lastConfig.targetDir == gtree.specLastOptStr(options, gtree.optKTarget, len(options), ".") && lastConfig.fileExtensions == gtree.specLastOptStrs(options, gtree.optKExt, len(options), nil) && lastConfig.encode == gtree.specLastEncode(options, len(options)) && lastConfig.dryrun
 //@   ensures live [C16]: lastCtxLive == old(!gtree.specHasOpt(options, gtree.optKMassive, len(options)) || gtree.specLastCtx(options, len(options)) == gtree.specBg() || !ctxCancelled[gtree.specLastCtx(options, len(options))])
 //@ func main.mkdir
-//@   modifies libFailed, libCalls, libReader, lastCtxLive, lastConfig, lastForest, lnNodes, Node.children, Node.parent, Node.brnch.value, Node.brnch.path, list.List.view, list.Element.backOf, counter.n, bufio.Scanner.pos, bufio.Scanner.failed, markdown.Parser.isSharpRoot, markdown.Parser.spaces, markdown.Parser.sep, fsOps, fsFailed, defaultGrowerSimple.enabledValidation, errSent, mkSeen, ctxCancelled, splSent, lnRootCount, lnRejected, splSharp, splCutOK, ctxDoneSeen, gcRecv, rcRecv, rcSentOK, lnConsumed, gcSent, errRecv
+//@   modifies libFailed, libCalls, libReader, lastCtxLive, lastConfig, lastForest, lnNodes, Node.children, Node.parent, Node.brnch.value, Node.brnch.path, list.List.view, list.Element.backOf, counter.n, bufio.Scanner.pos, bufio.Scanner.failed, markdown.Parser.isSharpRoot, markdown.Parser.spaces, markdown.Parser.sep, fsOps, fsFailed, defaultGrowerSimple.enabledValidation, errSent, mkSeen, ctxCancelled, splSent, lnRootCount, lnRejected, splSharp, splCutOK, ctxDoneSeen, gcRecv, rcRecv, rcSentOK, lnConsumed, gcSent, errRecv, counter.mu.wheld, counter.mu.rheld, markdown.Parser.mu.wheld, gtree.defaultSpreaderPipeline.Mutex.held
 //@   ensures pub [C16]: libCalls == old(libCalls) + 1 && libFailed == (old(libFailed) || result != nil)
 //@   ensures reader [C16]: libReader == in
 //@   ensures wired [C16]: lastConfig.strictVerify == gtree.specHasOpt(options, gtree.optKStrict, len(options)) && lastConfig.massive == gtree.specHasOpt(options, gtree.optKMassive, len(options)) && lastConfig.targetDir == gtree.specLastOptStr(options, gtree.optKTarget, len(options), ".") && lastConfig.fileExtensions == gtree.specLastOptStrs(options, gtree.optKExt, len(options), nil) && lastConfig.encode == gtree.specLastEncode(options, len(options)) && lastConfig.dryrun == gtree.specHasOpt(options, gtree.optKDry, len(options))
 //@   ensures live [C16]: lastCtxLive == old(!gtree.specHasOpt(options, gtree.optKMassive, len(options)) || gtree.specLastCtx(options, len(options)) == gtree.specBg() || !ctxCancelled[gtree.specLastCtx(options, len(options))])
 //@ func main.verify
-//@   modifies libFailed, libCalls, libReader, lastCtxLive, lastConfig, lastForest, lnNodes, Node.children, Node.parent, Node.brnch.value, Node.brnch.path, list.List.view, list.Element.backOf, counter.n, bufio.Scanner.pos, bufio.Scanner.failed, markdown.Parser.isSharpRoot, markdown.Parser.spaces, markdown.Parser.sep, defaultGrowerSimple.enabledValidation, maps, errSent, vfSeen, ctxCancelled, splSent, lnRootCount, lnRejected, splSharp, splCutOK, ctxDoneSeen, gcRecv, rcRecv, rcSentOK, lnConsumed, gcSent, errRecv
+//@   modifies libFailed, libCalls, libReader, lastCtxLive, lastConfig, lastForest, lnNodes, Node.children, Node.parent, Node.brnch.value, Node.brnch.path, list.List.view, list.Element.backOf, counter.n, bufio.Scanner.pos, bufio.Scanner.failed, markdown.Parser.isSharpRoot, markdown.Parser.spaces, markdown.Parser.sep, defaultGrowerSimple.enabledValidation, maps, errSent, vfSeen, ctxCancelled, splSent, lnRootCount, lnRejected, splSharp, splCutOK, ctxDoneSeen, gcRecv, rcRecv, rcSentOK, lnConsumed, gcSent, errRecv, counter.mu.wheld, counter.mu.rheld, markdown.Parser.mu.wheld, gtree.defaultSpreaderPipeline.Mutex.held
 //@   ensures pub [C16]: libCalls == old(libCalls) + 1 && libFailed == (old(libFailed) || result != nil)
 //@   ensures reader [C16]: libReader == in
 //@   ensures wired [C16]: lastConfig.strictVerify == gtree.specHasOpt(options, gtree.optKStrict, len(options)) && lastConfig.massive == gtree.specHasOpt(options, gtree.optKMassive, len(options)) && lastConfig.targetDir == gtree.specLastOptStr(options, gtree.optKTarget, len(options), ".") && lastConfig.fileExtensions == gtree.specLastOptStrs(options, gtree.optKExt, len(options), nil) && lastConfig.encode == gtree.specLastEncode(options, len(options)) && lastConfig.dryrun == gtree.specHasOpt(options, gtree.optKDry, len(options))
@@ -68,7 +68,7 @@ package main
 
 //@ func main.actionVerify
 //@   requires nn: c != nil
-//@   modifies libWriter, libFailed, libCalls, libReader, lastCtxLive, lastConfig, lastForest, lnNodes, fsFailed, fsOps, Node.children, Node.parent, Node.brnch.value, Node.brnch.path, list.List.view, list.Element.backOf, counter.n, bufio.Scanner.pos, bufio.Scanner.failed, markdown.Parser.isSharpRoot, markdown.Parser.spaces, markdown.Parser.sep, out, wfail, defaultSpreaderSimple.w, encTrace, encoders, lnNodes, rsRoots, rsFailed, rsStopped, rsErr, gsRoots, gsFailed, gsStopped, gsErr, spRoots, spText, dryRoots, esFailed, defaultGrowerSimple.enabledValidation, maps, errSent, mkSeen, vfSeen, stageSpread, stageWriter, ctxCancelled, splSent, lnRootCount, lnRejected, splSharp, splCutOK, ctxDoneSeen, gcRecv, rcRecv, rcSentOK, lnConsumed, gcSent, errRecv
+//@   modifies libWriter, libFailed, libCalls, libReader, lastCtxLive, lastConfig, lastForest, lnNodes, fsFailed, fsOps, Node.children, Node.parent, Node.brnch.value, Node.brnch.path, list.List.view, list.Element.backOf, counter.n, bufio.Scanner.pos, bufio.Scanner.failed, markdown.Parser.isSharpRoot, markdown.Parser.spaces, markdown.Parser.sep, out, wfail, defaultSpreaderSimple.w, encTrace, encoders, lnNodes, rsRoots, rsFailed, rsStopped, rsErr, gsRoots, gsFailed, gsStopped, gsErr, spRoots, spText, dryRoots, esFailed, defaultGrowerSimple.enabledValidation, maps, errSent, mkSeen, vfSeen, stageSpread, stageWriter, ctxCancelled, splSent, lnRootCount, lnRejected, splSharp, splCutOK, ctxDoneSeen, gcRecv, rcRecv, rcSentOK, lnConsumed, gcSent, errRecv, counter.mu.wheld, counter.mu.rheld, markdown.Parser.mu.wheld, gtree.defaultSpreaderPipeline.Mutex.held
 //@   ensures coder [C16]: result != nil ==> isExitCoder(result) && exitCodeOf(result) != 0
 //@   ensures truthful [C16]: result == nil ==> libFailed == old(libFailed)
 //@   ensures wired [C16]: libCalls == old(libCalls) + 1 ==> lastConfig.strictVerify == ctxBool(c, "strict") && lastConfig.targetDir == ctxString(c, "target-dir") && !lastConfig.massive && !lastConfig.dryrun
@@ -77,7 +77,7 @@ package main
 // mkdir: in addition, --dry-run must not reach the file system (it is routed to the library's Output with WithDryRun)
 //@ func main.actionMkdir
 //@   requires nn: c != nil
-//@   modifies libWriter, libFailed, libCalls, libReader, lastCtxLive, lastConfig, lastForest, lnNodes, fsFailed, fsOps, Node.children, Node.parent, Node.brnch.value, Node.brnch.path, list.List.view, list.Element.backOf, counter.n, bufio.Scanner.pos, bufio.Scanner.failed, markdown.Parser.isSharpRoot, markdown.Parser.spaces, markdown.Parser.sep, out, wfail, defaultSpreaderSimple.w, encTrace, encoders, rsRoots, rsFailed, rsStopped, rsErr, gsRoots, gsFailed, gsStopped, gsErr, spRoots, spText, dryRoots, esFailed, defaultGrowerSimple.enabledValidation, maps, errSent, mkSeen, vfSeen, stageSpread, stageWriter, ctxCancelled, splSent, lnRootCount, lnRejected, splSharp, splCutOK, ctxDoneSeen, gcRecv, rcRecv, rcSentOK, lnConsumed, gcSent, errRecv
+//@   modifies libWriter, libFailed, libCalls, libReader, lastCtxLive, lastConfig, lastForest, lnNodes, fsFailed, fsOps, Node.children, Node.parent, Node.brnch.value, Node.brnch.path, list.List.view, list.Element.backOf, counter.n, bufio.Scanner.pos, bufio.Scanner.failed, markdown.Parser.isSharpRoot, markdown.Parser.spaces, markdown.Parser.sep, out, wfail, defaultSpreaderSimple.w, encTrace, encoders, rsRoots, rsFailed, rsStopped, rsErr, gsRoots, gsFailed, gsStopped, gsErr, spRoots, spText, dryRoots, esFailed, defaultGrowerSimple.enabledValidation, maps, errSent, mkSeen, vfSeen, stageSpread, stageWriter, ctxCancelled, splSent, lnRootCount, lnRejected, splSharp, splCutOK, ctxDoneSeen, gcRecv, rcRecv, rcSentOK, lnConsumed, gcSent, errRecv, counter.mu.wheld, counter.mu.rheld, markdown.Parser.mu.wheld, gtree.defaultSpreaderPipeline.Mutex.held
 //@   ensures coder [C16]: result != nil ==> isExitCoder(result) && exitCodeOf(result) != 0
 //@   ensures truthful [C16]: result == nil ==> libFailed == old(libFailed)
 //@   ensures dryfs [C16,C09]: ctxBool(c, "dry-run") ==> fsOps == old(fsOps)
@@ -87,7 +87,7 @@ package main
 // output and verify never reach the file system
 //@ func main.actionOutput
 //@   requires nn: c != nil
-//@   modifies libWriter, libFailed, libCalls, libReader, lastCtxLive, lastConfig, lastForest, lnNodes, fsFailed, fsOps, Node.children, Node.parent, Node.brnch.value, Node.brnch.path, list.List.view, list.Element.backOf, counter.n, bufio.Scanner.pos, bufio.Scanner.failed, markdown.Parser.isSharpRoot, markdown.Parser.spaces, markdown.Parser.sep, out, wfail, defaultSpreaderSimple.w, encTrace, encoders, rsRoots, rsFailed, rsStopped, rsErr, gsRoots, gsFailed, gsStopped, gsErr, spRoots, spText, dryRoots, esFailed, defaultGrowerSimple.enabledValidation, maps, errSent, mkSeen, vfSeen, stageSpread, stageWriter, ctxCancelled, splSent, lnRootCount, lnRejected, splSharp, splCutOK, ctxDoneSeen, gcRecv, rcRecv, rcSentOK, lnConsumed, gcSent, errRecv
+//@   modifies libWriter, libFailed, libCalls, libReader, lastCtxLive, lastConfig, lastForest, lnNodes, fsFailed, fsOps, Node.children, Node.parent, Node.brnch.value, Node.brnch.path, list.List.view, list.Element.backOf, counter.n, bufio.Scanner.pos, bufio.Scanner.failed, markdown.Parser.isSharpRoot, markdown.Parser.spaces, markdown.Parser.sep, out, wfail, defaultSpreaderSimple.w, encTrace, encoders, rsRoots, rsFailed, rsStopped, rsErr, gsRoots, gsFailed, gsStopped, gsErr, spRoots, spText, dryRoots, esFailed, defaultGrowerSimple.enabledValidation, maps, errSent, mkSeen, vfSeen, stageSpread, stageWriter, ctxCancelled, splSent, lnRootCount, lnRejected, splSharp, splCutOK, ctxDoneSeen, gcRecv, rcRecv, rcSentOK, lnConsumed, gcSent, errRecv, counter.mu.wheld, counter.mu.rheld, markdown.Parser.mu.wheld, gtree.defaultSpreaderPipeline.Mutex.held
 //@   ensures coder [C16]: result != nil ==> isExitCoder(result) && exitCodeOf(result) != 0
 //@   ensures truthful [C16]: result == nil ==> libFailed == old(libFailed)
 //@   ensures nofs [C16]: fsOps == old(fsOps)
